@@ -170,7 +170,13 @@ class CIGAR(list):
       if not isinstance(self.length, int) and not isinstance(self.length, str):
         raise gfapy.TypeError(
             "Type error: length of CIGAR is {}".format(self.length))
-      if(int(self.length) < 0):
+      try:
+        length = int(self.length)
+      except ValueError as err:
+        raise gfapy.TypeError(
+            "Type error: length of CIGAR is {}".format(repr(self.length))) \
+                from err
+      if(length < 0):
         raise gfapy.ValueError("Length of CIGAR is {}".format(self.length))
       if version == "gfa2":
         if not self.code in Operation.CODE_GFA1_GFA2:
